@@ -32,6 +32,11 @@ CHECKS = {
     note="PARTIAL: the constraint rewrite's spelling sensitivity is outside the theorems. Trusted: Coq kernel+vm_compute, recorders, RDKit for variant generation and the canonical-multiset oracle.",
     technique="Coq proof (solver and comparator invariant under entry order of the composition dictionaries) + metamorphic differential runs",
     design="7/C14"),
+ "C15": dict(
+    text="Machine-checked proof (Coq) over Model/Aam.v (the two re.sub passes of remove_atom_mapping as deterministic scanners). Proved for EVERY input string: no ':' followed by a digit survives (no map number is left); and the exact effect of the second pass as three equations -- other characters are copied, a bracket group up to the first ']' is replaced by its symbols iff it is one or two organic-subset symbols with an optional H count, every other bracket atom (isotope, chirality, charge, aromatic, non-organic symbol) is returned verbatim. 'Chemically identical' thereby reduces to one oracle question (is the dropped explicit H count the implicit one?), answered by RDKit in the correspondence. The full statement is REFUTED (C15_refuted_PH2/SH4/ring_closure: hypervalent hydrides lose hydrogens, a ring-closure digit after an aromatic-bond colon is eaten) -- two recorded known findings. Correspondence: EXHAUSTIVE digest sweep of all strings of length <= 4/5 over a 12-symbol alphabet (Coq enumerates the domain), generated bracket atoms over the whole periodic table x isotope x chirality x H x charge x map, corpus reactions with shipped and random maps; RDKit identity oracle on every valid closed-shell string; pipeline outputs scanned for maps.",
+    note="PARTIAL on chemistry: valence (whether an un-bracketed atom keeps its hydrogens) is RDKit's, not modelled. ASCII inputs. Trusted: Coq kernel+vm_compute, Python re as the implementation's engine, RDKit identity oracle.",
+    technique="Coq proof (scanner model of two regex substitutions; invariant 'no colon-digit' through both passes; exact rewrite equations) + exhaustive short-string digest correspondence",
+    design="7/C15"),
  "C17": dict(
     text="Machine-checked proof (Coq) over Model/Normalize.v (normalize_smiles and wc_similarity; leaf normalisation of one molecule and fingerprint similarity are oracles): for EVERY leaf oracle, two reactions whose sides have permuted lists of leaf images (any molecule order, any spelling the leaf maps to the same string) get the SAME normal form; normalisation is idempotent (leaf idempotent, one molecule per leaf image); equal normal forms give similarity exactly ONE; similarity is symmetric and in [0, ONE] for every symmetric fingerprint oracle with that range. All rest on the proved fact that the repaired sort key (atom count, character sum, string) is a total order (total, antisymmetric, transitive incl. a transitivity proof for String.leb) and that an insertion sort under a total order is permutation invariant. The pinned tree violated the order claim (two-component key ties on anagram isomers): repaired in /repo by a fix: commit; the old key is kept as C17_old_key_refuted. Correspondence: normalize_smiles vs the model inside Coq with recorded leaf tables on corpus reactions and an isomer family in all permutations / respellings / atom maps; oracle checks of idempotence, similarity 1, symmetry and range for the three methods.",
     note="Oracle contract (RDKit canonical SMILES spelling independent and idempotent; fingerprints symmetric in [0,1]) is checked on every token/pair of the run, not proved. Strings are assumed ASCII. Trusted: Coq kernel+vm_compute, RDKit, harness.",
